@@ -14,6 +14,7 @@ BUILD = os.path.join(VERIF, "build")
 CXX = os.environ.get("VERIF_CXX", "g++")
 
 _tree_hash = None
+LAST = {}   # binary name -> path of the binary built (or found in the cache) by this process
 
 
 def tree_hash():
@@ -74,6 +75,7 @@ def build(name, sources, flags=(), cxx=None, link_flags=(), per_tu=True, source_
     key = h.hexdigest()[:24]
     outdir = os.path.join(BUILD, key)
     out = os.path.join(outdir, name)
+    LAST[name] = out
     if os.path.exists(out):
         return out
     tmpdir = outdir + ".tmp%d" % os.getpid()
